@@ -10,6 +10,7 @@ inherited value can be read back from the concrete value pdfminer reports:
 Attributes that are not in play in the configuration are written on every page itself (Resources, MediaBox,
 Rotate) or left out (CropBox).  Each page shows one marker glyph (the letter of its label) at a known point.
 
+blank: {label: "none" | "empty-array" | "empty-stream"} - pages without content (no marker glyph).
 variant 0: attribute values, /Kids arrays direct; object numbers ascending with the labels; classic xref table.
 variant 1: attribute values (and some of the numbers inside the boxes) and /Kids arrays indirect; object
            numbers descending with the labels; cross-reference stream with the dictionaries in an object stream.
@@ -106,7 +107,7 @@ class Values:
         return ("?", rot)
 
 
-def realise(g, cat, attrs, variant=0, shift=0, mark_box_src=None, labels=False):
+def realise(g, cat, attrs, variant=0, shift=0, mark_box_src=None, labels=False, blank=None):
     """-> (pdf bytes, meta).   g: list of node dicts; cat: attribute kinds written in the catalog;
     attrs: attribute kinds in play.   meta: objid_of[label], label_of[objid], values, own[label] (set of the
     inheritable keys written in the node's own dictionary)."""
@@ -209,7 +210,14 @@ def realise(g, cat, attrs, variant=0, shift=0, mark_box_src=None, labels=False):
                 ux, uy = vals.mark_units(lab, bsrc)
                 px, py = SCALE * ux, SCALE * uy
             content = b"BT /F1 10 Tf 1 0 0 1 %d %d Tm (%c) Tj ET" % (px, py, 64 + lab)
-            d["Contents"] = new(Stream({}, content))
+            form = (blank or {}).get(lab)
+            if form is None:
+                d["Contents"] = new(Stream({}, content))
+            elif form == "empty-array":         # a blank page: /Contents [] ...
+                d["Contents"] = []
+            elif form == "empty-stream":        # ... or an array holding one empty stream ...
+                d["Contents"] = [new(Stream({}, b""))]
+            # ... or no /Contents at all ("none")
         objs[objid_of[lab]] = d
         own_written[lab] = {k for k in d if k in INHERITABLE}
     if variant == 0:
